@@ -1315,8 +1315,8 @@ fn builtin_pcap_read_all(args: Vec<Rc<Object>>) -> Result<Rc<Object>, String> {
 /// Apart from opening the file, read the pcap header and validate
 /// the magic number and the endianness. Return error if the validation fails.
 fn builtin_pcap_stream(args: Vec<Rc<Object>>) -> Result<Rc<Object>, String> {
-    if args.len() > 1 {
-        return Err(format!("takes one or no arguments. got={}", args.len()));
+    if args.len() != 1 {
+        return Err(format!("takes one argument. got={}", args.len()));
     }
     let result = match args[0].as_ref() {
         Object::File(f) => match f.as_ref() {
